@@ -194,9 +194,10 @@ def run(tier, seed_):
 
     def selftest(records, bad):
         m = json.loads(json.dumps(next(r for r in records if r["rid"] not in bad and r["fn"] == "subhypergraph"
-                                       and r["dst"]["edges"])))
+                                       and any(r["dst"]["e2n"]))))
         m["rid"] = "selftest"
-        m["dst"]["e2n"][0] = m["dst"]["e2n"][0][1:]  # an edge cut through
+        k = next(k for k, x in enumerate(m["dst"]["e2n"]) if x)
+        m["dst"]["e2n"][k] = m["dst"]["e2n"][k][1:]  # an edge cut through
         v = common.validate_records([m], "TraceNetOps")
         if "C19:subhypergraph" not in v.get("selftest", []):
             raise common.MachineryError(f"C19 self-test did not fire: {v}")
